@@ -142,7 +142,10 @@ struct ReaderCfg { int n; bool delta[3]; };
 //   both_starts: histories starting with no callback registered as well as with cb0 registered
 //   slim:  callbacks cb0 and cb2 only (same function, different state), script operations on cb0
 //          only, at most two readers - the alphabet of the deepest part
-struct Part { int depth; bool rich; bool reps; bool both_starts; bool slim; };
+//   ties:  clock-tie deviation sub-run (gauges only): the clock stands still during every operation
+//          and is advanced by 1 ms before each clock-reading operation, except for at most two
+//          "tied" ones per history; everything found here carries the signature prefix C17:clock-tie
+struct Part { int depth; bool rich; bool reps; bool both_starts; bool slim; bool ties; };
 std::vector<Part> g_parts;
 std::vector<ReaderCfg> g_readers_all, g_readers_rep;
 
@@ -238,8 +241,11 @@ void run_observable(vf::Ctx &c) {
   const int part = c.pick("part", (int)g_parts.size());
   const Part &P = g_parts[part];
   const int g_depth = P.depth;
-  const OKind kind = (OKind)c.pick("kind", 3);
+  const OKind kind = P.ties ? O_GAUGE : (OKind)c.pick("kind", 3);  // timestamps matter to last-value aggregation only
   const bool is_double = c.pick("type", 2) == 1;
+  if (P.ties) vf::clock_set_autostep_ns(-1000);  // compensates the interposer's 1 us tick per call: the clock stands still
+  int ties_used = 0;
+  auto S = [&](const std::string &sig) { return P.ties ? "C17:clock-tie:" + sig.substr(4) : sig; };
   const std::vector<ReaderCfg> &g_readers = P.reps ? g_readers_rep : g_readers_all;
   const int rcfg = c.pick("readers", P.slim ? 5 : (int)g_readers.size());  // the first five representatives have at most two readers
   const bool prereg = P.both_starts ? c.pick("start", 2) == 0 : true;
@@ -278,7 +284,7 @@ void run_observable(vf::Ctx &c) {
   int64_t last_total[NATTR] = {0, 0, 0, 0};           // most recent observation per attribute set (any collection)
   int64_t given[3][NATTR] = {{0, 0, 0, 0}, {0, 0, 0, 0}, {0, 0, 0, 0}};  // delta readers: sum of what the reader received so far
 
-  std::string cfgs = vf::sfmt("%s<%s> readers=", kOKindName[kind], is_double ? "double" : "int64");
+  std::string cfgs = vf::sfmt("%s%s<%s> readers=", P.ties ? "clock-ties " : "", kOKindName[kind], is_double ? "double" : "int64");
   for (int r = 0; r < R; ++r) cfgs += RC.delta[r] ? 'D' : 'C';
   std::string hist, outlog;
   if (prereg) {
@@ -310,7 +316,7 @@ void run_observable(vf::Ctx &c) {
     for (int r = 0; r < R; ++r) for (int a = 0; a < NATTR; ++a) h.add((uint64_t)given[r][a]);
   };
 
-  enum OpKind { OP_STEP, OP_DEC, OP_TOGGLE, OP_COLLECT, OP_ADD, OP_REMOVE, OP_DESTROY };
+  enum OpKind { OP_STEP, OP_DEC, OP_TOGGLE, OP_COLLECT, OP_ADD, OP_REMOVE, OP_DESTROY, OP_COLLECT_TIED };
   struct Op { OpKind k; int arg; };
   vf::H128 cur;
   real_state(cur);
@@ -331,6 +337,8 @@ void run_observable(vf::Ctx &c) {
       }
     }
     for (int r = 0; r < R; ++r) ops[n++] = {OP_COLLECT, r};
+    if (P.ties && ties_used < 2 && d > 0)
+      for (int r = 0; r < R; ++r) ops[n++] = {OP_COLLECT_TIED, r};
     if (!last && alive) {
       for (int j = 0; j < NSLOT; ++j)
         if (!(P.slim && j == 1)) ops[n++] = {registered[j] ? OP_REMOVE : OP_ADD, j};
@@ -343,11 +351,15 @@ void run_observable(vf::Ctx &c) {
       vf::H128 h = cur;
       h.add((uint64_t)(g_depth - d));
       model_state(h);
+      h.add((uint64_t)ties_used);
       c.prune_point(h);
     }
-    const Op op = ops[c.pick("op", n)];
+    Op op = ops[c.pick("op", n)];
     c.step();
+    if (P.ties && op.k == OP_COLLECT) vf::clock_advance_ns(1000000);
+    if (op.k == OP_COLLECT_TIED) { ties_used++; hist += " [no clock progress]"; op.k = OP_COLLECT; }
     switch (op.k) {
+      case OP_COLLECT_TIED: break;
       case OP_STEP: hist += vf::sfmt(" step(cb%d)", op.arg); w.v[op.arg] += 1; break;
       case OP_DEC: hist += vf::sfmt(" decrease(cb%d)", op.arg); w.v[op.arg] -= 1; break;
       case OP_TOGGLE:
@@ -388,15 +400,15 @@ void run_observable(vf::Ctx &c) {
         for (int j = 0; j < NSLOT; ++j) {
           int k = w.calls[j] - before[j];
           if (registered[j]) {
-            c.check(k >= 1, "C17:registered-callback-not-invoked", vf::sfmt("callback cb%d is registered but was not invoked by this collection", j) + where);
-            c.check(k <= 1, "C17:callback-invoked-more-than-once", vf::sfmt("callback cb%d was invoked %d times by one collection", j, k) + where);
+            c.check(k >= 1, S("C17:registered-callback-not-invoked"), vf::sfmt("callback cb%d is registered but was not invoked by this collection", j) + where);
+            c.check(k <= 1, S("C17:callback-invoked-more-than-once"), vf::sfmt("callback cb%d was invoked %d times by one collection", j, k) + where);
           } else {
-            c.check(k == 0, alive ? "C17:removed-callback-invoked" : "C17:callback-invoked-after-instrument-destroyed",
+            c.check(k == 0, S(alive ? "C17:removed-callback-invoked" : "C17:callback-invoked-after-instrument-destroyed"),
                     vf::sfmt("callback cb%d is not registered but was invoked %d time(s)", j, k) + where);
           }
         }
-        c.check(!w.wrong_type, "C17:observer-result-type", "a callback was handed an ObserverResult of the other value type" + where);
-        if (!psig.empty()) c.fail(psig, pmsg + where);
+        c.check(!w.wrong_type, S("C17:observer-result-type"), "a callback was handed an ObserverResult of the other value type" + where);
+        if (!psig.empty()) c.fail(S(psig), pmsg + where);
         // --- what was observed by this collection ---
         bool obs[NATTR] = {false, false, false, false};
         for (int j = 0; j < NSLOT; ++j)
@@ -417,13 +429,13 @@ void run_observable(vf::Ctx &c) {
           if (g.has[a]) {
             if (g.val[a] != want) {
               const char *sig = is_gauge ? "C17:gauge-not-latest-value" : delta ? "C17:delta-not-difference-from-last-given" : "C17:cumulative-not-reported-total";
-              c.fail(sig, vf::sfmt("reader r%d (%s), attributes %s%s: got %s, expected %s", r, delta ? "delta" : "cumulative", kAttrName[a], obs[a] ? "" : " (not observed by this collection)",
+              c.fail(S(sig), vf::sfmt("reader r%d (%s), attributes %s%s: got %s, expected %s", r, delta ? "delta" : "cumulative", kAttrName[a], obs[a] ? "" : " (not observed by this collection)",
                                    show_units(is_double, g.val[a]).c_str(), show_units(is_double, want).c_str()) + where);
             }
             if (!is_gauge && delta) given[r][a] = last_total[a];
           } else if (must) {
             const char *sig = is_gauge ? "C17:gauge-point-missing" : delta ? "C17:delta-point-missing" : "C17:cumulative-point-missing";
-            c.fail(sig, vf::sfmt("reader r%d (%s), attributes %s: no point although the callback reported %s in this collection (expected %s)", r, delta ? "delta" : "cumulative", kAttrName[a],
+            c.fail(S(sig), vf::sfmt("reader r%d (%s), attributes %s: no point although the callback reported %s in this collection (expected %s)", r, delta ? "delta" : "cumulative", kAttrName[a],
                                  show_units(is_double, last_total[a]).c_str(), show_units(is_double, want).c_str()) + where);
           }
         }
@@ -447,6 +459,9 @@ void run_syncgauge(vf::Ctx &c) {
   const Part &P = g_parts[part];
   const int g_depth = P.depth;
   const bool is_double = c.pick("type", 2) == 1;
+  if (P.ties) vf::clock_set_autostep_ns(-1000);  // the clock stands still unless the harness advances it
+  int ties_used = 0;
+  auto S = [&](const std::string &sig) { return P.ties ? "C17:clock-tie:" + sig.substr(4) : sig; };
   const std::vector<ReaderCfg> &g_readers = P.reps ? g_readers_rep : g_readers_all;
   const int rcfg = c.pick("readers", (int)g_readers.size());
   const ReaderCfg &RC = g_readers[rcfg];
@@ -471,7 +486,7 @@ void run_syncgauge(vf::Ctx &c) {
   bool ever[NATTR] = {false, false, false, false};
   int64_t last[NATTR] = {0, 0, 0, 0};
   bool fresh[3][NATTR] = {};  // recorded since this reader's previous collection
-  std::string cfgs = vf::sfmt("Gauge<%s> readers=", is_double ? "double" : "int64");
+  std::string cfgs = vf::sfmt("%sGauge<%s> readers=", P.ties ? "clock-ties " : "", is_double ? "double" : "int64");
   for (int r = 0; r < R; ++r) cfgs += RC.delta[r] ? 'D' : 'C';
   std::string hist, outlog;
   auto real_state = [&](vf::H128 &h) {
@@ -486,15 +501,20 @@ void run_syncgauge(vf::Ctx &c) {
   for (int d = 0; d < g_depth; ++d) {
     const bool last_op = d == g_depth - 1;
     const int n_rec = last_op ? 0 : NA * 3;
-    if (n_rec + R > 1) {
+    // tie part: every operation reads the clock; a second copy of the alphabet runs without clock progress
+    const bool tie_ok = P.ties && ties_used < 2 && d > 0;
+    if (n_rec + R > 1 || tie_ok) {
       vf::H128 h = cur;
       h.add((uint64_t)(g_depth - d));
       for (int a = 0; a < NATTR; ++a) { h.add(ever[a]); h.add((uint64_t)last[a]); }
       for (int r = 0; r < R; ++r) for (int a = 0; a < NATTR; ++a) h.add(fresh[r][a]);
+      h.add((uint64_t)ties_used);
       c.prune_point(h);
     }
-    int op = c.pick("op", n_rec + R);
+    int op = c.pick("op", (n_rec + R) * (tie_ok ? 2 : 1));
     c.step();
+    if (op >= n_rec + R) { op -= n_rec + R; ties_used++; hist += " [no clock progress]"; }
+    else if (P.ties) vf::clock_advance_ns(1000000);
     if (op < n_rec) {
       int a = op / 3;
       int64_t u = kVals[op % 3];
@@ -513,18 +533,18 @@ void run_syncgauge(vf::Ctx &c) {
       std::string pmsg;
       std::string psig = pull(*readers[r], "g", true, is_double, &g, &pmsg);
       std::string where = " [" + cfgs + ";" + hist + "]";
-      if (!psig.empty()) c.fail(psig, pmsg + where);
+      if (!psig.empty()) c.fail(S(psig), pmsg + where);
       outlog += vf::sfmt("|r%d:", r);
       for (int a = 0; a < NATTR; ++a) {
         if (g.has[a]) outlog += vf::sfmt("%d=%lld,", a, (long long)g.val[a]);
         if (g.has[a]) {
-          c.check(ever[a] && g.val[a] == last[a], "C17:sync-gauge-not-latest-value",
+          c.check(ever[a] && g.val[a] == last[a], S("C17:sync-gauge-not-latest-value"),
                   vf::sfmt("reader r%d, attributes %s: got %s, the most recently recorded value is %s", r, kAttrName[a], show_units(is_double, g.val[a]).c_str(),
                            ever[a] ? show_units(is_double, last[a]).c_str() : "none") + where);
         } else {
           // a value recorded since this reader's previous collection has to be reported; whether an
           // unchanged value is reported again is not stated
-          c.check(!fresh[r][a], "C17:sync-gauge-point-missing", vf::sfmt("reader r%d, attributes %s: no point although %s was recorded since this reader's previous collection", r, kAttrName[a],
+          c.check(!fresh[r][a], S("C17:sync-gauge-point-missing"), vf::sfmt("reader r%d, attributes %s: no point although %s was recorded since this reader's previous collection", r, kAttrName[a],
                                                                          show_units(is_double, last[a]).c_str()) + where);
         }
         fresh[r][a] = false;
@@ -553,14 +573,14 @@ void setup(vf::Options &o) {
     }
   g_readers_rep = {{1, {D}}, {1, {C}}, {2, {D, D}}, {2, {D, C}}, {2, {C, C}}, {3, {D, D, C}}, {3, {D, C, C}}, {3, {C, D, D}}};
 #if OPENTELEMETRY_ABI_VERSION_NO >= 2
-  if (o.thorough) g_parts = {{5, false, false, false, false}, {6, false, true, false, false}};
-  else g_parts = {{5, false, true, false, false}};
+  if (o.thorough) g_parts = {{5, false, false, false, false, false}, {6, false, true, false, false, false}, {5, false, true, false, false, true}};
+  else g_parts = {{5, false, true, false, false, false}, {4, false, true, false, false, true}};
 #else
-  if (o.thorough) g_parts = {{5, true, false, true, false}, {6, true, true, false, false}, {7, false, true, false, true}};
-  else g_parts = {{5, false, true, false, false}};
+  if (o.thorough) g_parts = {{5, true, false, true, false, false}, {6, true, true, false, false, false}, {8, false, true, false, true, false}, {5, false, true, false, false, true}};
+  else g_parts = {{5, false, true, false, false, false}, {4, false, true, false, false, true}};
 #endif
   std::string d = o.get("depth");
-  if (!d.empty()) g_parts = {{atoi(d.c_str()), o.get("rich") == "1", o.get("allreaders") != "1", o.get("bothstarts") == "1", o.get("slim") == "1"}};
+  if (!d.empty()) g_parts = {{atoi(d.c_str()), o.get("rich") == "1", o.get("allreaders") != "1", o.get("bothstarts") == "1", o.get("slim") == "1", o.get("ties") == "1"}};
 }
 
 void run(vf::Ctx &c) {
